@@ -343,6 +343,7 @@ func (c *fctx) stmt(s ast.Stmt, en *env, lc *lctx, next kont) string {
 			if g.k == kErr { // [ext:T20] var err error = nil
 				c.markNilAs20(it.val)
 			}
+			c.refuseNilOpaque08(g, it.val) // [ext:T08]
 			return c.expr(it.val, en, func(v string) string {
 				en2, name := c.declare(c.taintCalls(it.val, en), obj, g)
 				en2 = c.noteAlias(it.id, it.val, en2)
@@ -366,6 +367,7 @@ func (c *fctx) stmt(s ast.Stmt, en *env, lc *lctx, next kont) string {
 			if c.fi.results[i].k == kErr {
 				c.markNilAs20(r)
 			}
+			c.refuseNilOpaque08(c.fi.results[i], r) // [ext:T08]
 		}
 		return c.args(x.Results, en, func(vs []string) string { return lc.ret(c.retTerm(en, vs)) })
 	case *ast.BranchStmt:
@@ -491,6 +493,7 @@ func (c *fctx) assign(x *ast.AssignStmt, en *env, next kont) string {
 	for i := range x.Lhs { // [ext:T20] err = nil
 		if x.Tok == token.ASSIGN {
 			c.markNil20(x.Rhs[i], x.Lhs[i])
+			c.refuseNilAssign08(x.Lhs[i], x.Rhs[i], en) // [ext:T08]
 		}
 	}
 	if len(x.Lhs) > 1 {
